@@ -221,7 +221,8 @@ int main(int argc, char** argv) {
         const double t0 = (lo + hi) / 2, t = t0 + g * size;
         if (!(A.kind == HS) && t < 0.05 * size) { run.count("skipped:centre-too-close"); return; }
         const double clr = clearance(A, B, R2m, dhat, t, eucl);
-        Ref ref; ref.overlap = clr < 0 ? 1 : 0;
+        Ref ref; ref.overlap = clr < 0 ? (clr > -1e-200 ? -1 : 1) : 0;   // -1e-300 = mesh triangles touch but no definite crossing / containment
+        if (ref.overlap < 0) { run.evaluation(verif::hashStr(P.name + od.describe(idx)), false); run.count("unspecified:meshmesh-touching-only"); return; }
         // poses: A at X1 (identity, or for a half space the frame whose -x axis is dhat), B at X2
         Rotation R1; if (A.kind == HS) R1 = Rotation(UnitVec3(-dhat), XAxis); Rotation R2; R2.setRotationFromApproximateMat33(R2m);
         const Transform X1(R1, Vec3(0)), X2(R2, t * dhat);
@@ -283,7 +284,8 @@ int main(int argc, char** argv) {
         // (1) contact reported <=> overlap
         if (!run.expect(r0.contact == (ref.overlap == 1), std::string(ref.overlap ? "missed-contact/" : "phantom-contact/") + pk,
                         [&] { return "contact reported=" + std::to_string(r0.contact) + " (" + r0.type + ", depth " + sd(r0.depth) + ") but the solids " + (ref.overlap ? "overlap" : "are separated") + " (clearance " + sd(clr) + (eucl ? "" : ", sign only") + ") at " + where(); }, rp)) return;
-        run.outcome(verif::hashStr(r0.type + (r0.contact ? "1" : "0")));
+        { uint64_t oh = verif::hashStr(r0.type + (r0.contact ? "1" : "0")); if (std::isfinite(r0.depth)) oh = verif::hashPod(r0.depth, oh);
+          for (int f : r0.f1) oh = verif::hashPod(f, oh); for (int f : r0.f2) oh = verif::hashPod(-1 - f, oh); oh = verif::hashPod(r0.lowestVertex, oh); run.outcome(oh); }
         if (r0.contact) {
             run.count("contact-type:" + r0.type);
             // (2) depth, normal, point
@@ -312,6 +314,11 @@ int main(int argc, char** argv) {
                 run.residual("unit-normal/" + pk, std::abs(r0.normal.norm() - 1), 1e-12, where, rp);
             }
             // (3) mesh face sets (three-valued)
+            if (ref.hasFaces && run.verbose) {
+                auto show = [](const char* nm, const std::set<int>& s) { fprintf(stderr, "  %s:", nm); for (int f : s) fprintf(stderr, " %d", f); fprintf(stderr, "\n"); };
+                show("library faces1", r0.f1); show("reference yes1", ref.f1yes); show("reference maybe1", ref.f1maybe);
+                show("library faces2", r0.f2); show("reference yes2", ref.f2yes); show("reference maybe2", ref.f2maybe);
+            }
             if (ref.hasFaces) {
                 auto cmp = [&](const std::set<int>& got, const std::set<int>& yes, const std::set<int>& maybe, const std::string& which) {
                     int missing = 0, extra = 0, firstBad = -1;
